@@ -81,6 +81,9 @@ def FanSt.line (f : FanSt) (toks : List String) : FanSt × Option String :=
     let f := ({ f with s := ms.foldl (fun s m => step s (.feed m)) f.s }).settled
     (f, none)
   | ["fan.stop", l] => (({ f with auto := f.auto.filter (· ≠ l) }).settled, none)
+  | ["fan.resume", l] =>
+    -- a consumer that had stopped reading reads again (if it is still attached)
+    ((if (f.idOf l).isSome && !f.auto.contains l then { f with auto := f.auto ++ [l] } else f).settled, none)
   | ["fan.despawn", l, _] =>
     match f.idOf l with
     | some id =>
